@@ -158,19 +158,26 @@ def trace_term(r):
                                       snap(len(APP_PREFIX) + (n1 or 0)))
     src = []
     npre = len(pevs(r['log'][:n1])) if n1 is not None else 0
+    off = len(SYS_PREFIX) if r['clock'] == 'sys' else 0
+    drain = '(None : option (nat * Q)%type)'
+    if r.get('_drain_at') is not None:
+        # the batch was scheduled while the thread slept: from its wake-up on, the real trace must be
+        # exactly the model's fair drain run of the model's queue
+        k = r['_drain_at']
+        drain = '(Some (%d%%nat, %s))' % (off + len(pevs(r['log'][:k])), q(r['log'][k + 1][2]))
     if r['clock'] == 'sys':
         evs = SYS_PREFIX + pevs(r['log'], src)
         r['_src'] = [None] * len(SYS_PREFIX) + src
-        return 'clk', '(KSys, tm_id, [%s], %s)' % ('; '.join(evs), snap(len(SYS_PREFIX) + npre))
+        return 'clk', '(KSys, tm_id, [%s], %s, %s)' % ('; '.join(evs), snap(len(SYS_PREFIX) + npre), drain)
     m = '(mkTM %s %s %s)' % tuple(q(x) for x in r['init_map'])
     evs = pevs(r['log'], src)
     r['_src'] = src
-    return 'clk', '(KTempo, %s, [%s], %s)' % (m, '; '.join(evs), snap(npre))
+    return 'clk', '(KTempo, %s, [%s], %s, %s)' % (m, '; '.join(evs), snap(npre), drain)
 
 
 CLK_CHECKS = ['accepts_quiescent', 'never_early', 'exactly_once+order', 'resched_relative_to_scheduled',
               'notify_iff_head_changed', 'no_oversleep', 'sched_relative_to_physical_now',
-              'model_queue_equals_real_queue']
+              'model_queue_equals_real_queue', 'thread_does_next_clock_event', 'fair_drain_run_matches']
 BODY_CLK = '''
 Definition qok (k : kind) (m : tmap) (evs : list event) (x : option (nat * list (Q * task))%type) : bool :=
   match x with
@@ -180,11 +187,17 @@ Definition qok (k : kind) (m : tmap) (evs : list event) (x : option (nat * list 
                       | None => true
                       end
   end.
-Definition chk (c : (kind * tmap * list event * option (nat * list (Q * task)))%type) : list bool :=
-  let '(k, m, evs, x) := c in
+Definition dok (k : kind) (m : tmap) (evs : list event) (y : option (nat * Q)) : bool :=
+  match y with
+  | None => true
+  | Some (n, t) => drain_matches k m evs n CNotified t
+  end.
+Definition chk (c : (kind * tmap * list event * option (nat * list (Q * task)) * option (nat * Q))%type) : list bool :=
+  let '(k, m, evs, x, y) := c in
   [accepts_quiescent k m evs; mon_never_early m None evs; mon_once [] 0 None evs; mon_resched 0 evs;
-   mon_notify [] 0 evs; mon_no_oversleep (init k m) evs; mon_sched_base m evs; qok k m evs x].
-Definition ok (c : (kind * tmap * list event * option (nat * list (Q * task)))%type) : bool := forallb (fun b => b) (chk c).
+   mon_notify [] 0 evs; mon_no_oversleep (init k m) evs; mon_sched_base m evs; qok k m evs x;
+   mon_next (init k m) evs; dok k m evs y].
+Definition ok (c : (kind * tmap * list event * option (nat * list (Q * task)) * option (nat * Q))%type) : bool := forallb (fun b => b) (chk c).
 Eval vm_compute in bad_idx ok cases.
 '''
 APP_CHECKS = ['a_accepts_quiescent', 'never_early', 'resched_relative_to_present', 'exactly_once+order', 'no_oversleep',
@@ -215,7 +228,7 @@ def diagnose(ctx, kind, term, variant):
     """which check fails, and where the model stops"""
     if kind == 'clk':
         txt = HEADER + 'Definition c := %s.\n' % term + BODY_CLK.replace('Eval vm_compute in bad_idx ok cases.', '') + \
-            "Eval vm_compute in chk c.\nEval vm_compute in (let '(k, m, evs, _) := c in first_reject (init k m) evs 0).\n"
+            "Eval vm_compute in chk c.\nEval vm_compute in (let '(k, m, evs, _, _) := c in first_reject (init k m) evs 0).\n"
     else:
         v = 'VFlag' if variant == 'flag' else 'VOrig'
         txt = HEADER + 'Definition c := %s.\n' % term + \
@@ -381,6 +394,19 @@ def gen_tie_resched(rng, kind, idx):
     return {'name': '%s-tie-resched-%d' % (kind, idx), 'clock': kind, 'index': idx, 'tempo': [4, 1], 'tasks': tasks,
             'threads': [[['locked', ops]]], 'final': 'clear', 'wait_counts': wc, 'before_final': 6.0, 'after_final': 0.02,
             'tie_order': True, 'expect_counts': wc}
+
+
+def gen_drain_batch(rng, kind, idx):
+    """progress: while the thread waits on an empty queue, one locked block schedules several tasks for times that are
+    already past (ties included); when the block ends the thread wakes up and must pop and awaken ALL of them, each
+    once, in (time, scheduling) order, then wait again: the real trace must equal the model's fair drain run."""
+    n = rng.randint(2, 7)
+    ops = [['abs', t, -rng.choice([17, 18, 18, 19, 20]), 64] for t in rng.sample(range(1, n + 1), n)]
+    wc = {str(t): 1 for t in range(1, n + 1)}
+    return {'name': '%s-drain-batch-%d' % (kind, idx), 'clock': kind, 'index': idx, 'tempo': rng.choice([[1, 1], [2, 1]]),
+            'tasks': {str(t): {'results': [rng.choice([['none'], ['str'], ['num', 'true']])]} for t in range(1, n + 1)},
+            'threads': [[['locked', ops]]], 'final': 'clear', 'wait_counts': wc, 'before_final': 6.0, 'after_final': 0.02,
+            'tie_order': True, 'expect_counts': wc, 'drain': True}
 
 
 def gen_two_clocks(kind, idx):
@@ -567,6 +593,10 @@ def program(ctx, rng):
         for _ in range(ctx.n(3, 10)):
             idx += 1
             p1.append(gen_tie_resched(rng, kind, idx))
+    for kind in ('sys', 'tempo'):
+        for _ in range(ctx.n(2, 8)):
+            idx += 1
+            p1.append(gen_drain_batch(rng, kind, idx))
     idx += 1
     p1.append(gen_self_stop(idx))
     idx += 1
@@ -848,6 +878,12 @@ def correspond(ctx):
                                 'observed': w, 'log': r['log'], 'coq_witness': 'SC3.proofs.C08_app.f13_witness',
                                 'how': 'harness/impl/c08_trace.py scenario app-window: a proxy on AppClock._sched_lock pauses the '
                                        'clock thread after releasing the lock until the client\'s sched() has returned'}))
+            if sc.get('drain'):
+                adds = [i for i, e in enumerate(r['log']) if e[1] == 'add']
+                we = [i for i, e in enumerate(r['log']) if e[1] == 'wait_end' and adds and i > adds[0]]
+                if we and we[0] + 1 < len(r['log']) and r['log'][we[0] + 1][1] == 'time':
+                    r['_drain_at'] = we[0]
+                    c.count('drain run compared with the model')
             try:
                 kind, term = trace_term(r)
             except ValueError as e:
